@@ -228,6 +228,8 @@ def worker_main(args: dict) -> int:
     known = load_known(prop)
     try:
         template.start()
+        # the budget is search time: it starts when the template is up
+        deadline = time.monotonic() + args["budget_s"]
         out["template"] = {
             k: template.info.get(k) for k in ("origin", "installed", "flavour")
         }
@@ -359,7 +361,8 @@ def handle_violation(
     }
     os.makedirs(os.path.join(VERIF_DIR, "replays"), exist_ok=True)
     path = os.path.join(
-        VERIF_DIR, "replays", f"{prop}-{seed}-{run_index}.json"
+        VERIF_DIR, "replays",
+        f"{prop}-{seed}-{run_index}-{os.environ.get('VERIF_CHECK_ID', os.getppid())}.json"
     )
     with open(path, "w", encoding="utf-8") as fp:
         json.dump(replay, fp, indent=1, ensure_ascii=False)
@@ -535,28 +538,42 @@ def run_pool(prop, tier, seed, budget_s=None, workers=None, max_runs=None,
         env.pop("LC_CTYPE", None)
         # machines live in different time zones (nothing in soundevent looks
         # at the zone today)
-        env["TZ"] = ["UTC", "Asia/Kolkata", "America/St_Johns", "Pacific/Auckland"][w % 4]
+        # (the zone of a *node* is part of a run's operation list -- `tz`
+        # operations, default UTC -- so that a run is the same run on
+        # whatever worker it lands, and in a replay)
+        env["TZ"] = "UTC"
         if w % 8 == 7:
             # process-environment dimension: these workers (and the nodes
             # forked from them) run with assert statements compiled away
             env["PYTHONOPTIMIZE"] = "1"
+        # output goes to a file, never to a pipe nobody drains: a library
+        # that logs or prints must not be able to block a node
+        log = open(os.path.join(base, f"w{w}.out"), "w+", encoding="utf-8",
+                   errors="replace")
         proc = subprocess.Popen(
             [PYTHON, os.path.join(VERIF_DIR, "check.py"), "_worker", json.dumps(args)],
             env=env,
-            stdout=subprocess.PIPE,
+            stdout=log,
             stderr=subprocess.STDOUT,
-            text=True,
+            stdin=subprocess.DEVNULL,
         )
-        procs.append((w, proc, args))
+        procs.append((w, proc, args, log))
     results, errors = [], []
     hard_deadline = started + conf["budget_s"] + conf["minimise_s"] * 3 + 180
-    for w, proc, args in procs:
+    for w, proc, args, log in procs:
         timeout = max(1.0, hard_deadline - time.monotonic())
+        killed = False
         try:
-            output, _ = proc.communicate(timeout=timeout)
+            proc.wait(timeout=timeout)
         except subprocess.TimeoutExpired:
             proc.kill()
-            output, _ = proc.communicate()
+            proc.wait()
+            killed = True
+        log.seek(0, 2)
+        log.seek(max(0, log.tell() - 4000))
+        output = log.read()
+        log.close()
+        if killed:
             errors.append(f"worker {w} exceeded its wall limit and was killed")
             continue
         if proc.returncode != 0:
